@@ -440,6 +440,43 @@ def e4_rewriters_store_into_their_own_syntax(ctx: Ctx):
                                   'the edit shows through to every holder of that function', path=describe_path(p, rel) if p else None)
     if n_helpers < 1:
         raise ShapeError('no in-place editing helper found among the rewriters (expected at least FuncInline._replace_ret)')
+    # the same for what a pass accumulates into: a set / dict / list it grows during the walk is its own copy, not the
+    # one hanging off the function (or analysis) it was given -- `self.free_vars = func.free_vars` followed by
+    # `self.free_vars |= callee.free_vars` writes the callee's captured names into the caller's own metadata
+    n_acc = 0
+    for rel in sorted(repo.modules):
+        if not rel.startswith(REWRITE_PREFIXES):
+            continue
+        for cname, cdef in repo.classes(rel):
+            init = next((s for s in cdef.body if isinstance(s, ast.FunctionDef) and s.name == '__init__'), None)
+            if init is None:
+                continue
+            params = set(param_names(init)) - {'self'}
+            shared: dict[str, ast.Assign] = {}
+            for s in walk_no_nested(init):
+                if isinstance(s, ast.Assign) and len(s.targets) == 1 and isinstance(s.targets[0], ast.Attribute) and dotted(s.targets[0].value) == 'self' \
+                        and isinstance(s.value, (ast.Name, ast.Attribute)) and _root_name(s.value) in params:
+                    shared[s.targets[0].attr] = s
+            if not shared:
+                continue
+            for m in [s for s in cdef.body if isinstance(s, ast.FunctionDef)]:
+                for node in ast.walk(m):
+                    hit = None
+                    if isinstance(node, ast.AugAssign) and dotted(node.target) in {f'self.{a}' for a in shared}:
+                        hit = dotted(node.target).split('.')[1]
+                    elif isinstance(node, (ast.Assign, ast.AugAssign)):
+                        for t in (node.targets if isinstance(node, ast.Assign) else [node.target]):
+                            if isinstance(t, ast.Subscript) and dotted(t.value) in {f'self.{a}' for a in shared}:
+                                hit = dotted(t.value).split('.')[1]
+                    elif isinstance(node, ast.Call) and isinstance(node.func, ast.Attribute) and node.func.attr in MUTATORS and dotted(node.func.value) in {f'self.{a}' for a in shared}:
+                        hit = dotted(node.func.value).split('.')[1]
+                    if hit is not None:
+                        n_acc += 1
+                        src = shared[hit]
+                        ctx.bad(rel, node, f'{cname}.{m.name}', f'`{norm(node)[:60]}` grows `self.{hit}`',
+                                f'`self.{hit}` is `{norm(src.value)}` itself (set in __init__ without a copy): the walk writes into the object it was handed -- after '
+                                'inlining, the original function lists its callees\' captured names as its own and fails with KeyError the next time it is called')
+    ctx.note(f'{n_acc} in-place updates of attributes that alias a constructor argument')
 
 
 def g1_captured_state(ctx: Ctx):
@@ -575,6 +612,10 @@ RULES = [
 from ..selftest import Mutant  # noqa: E402
 
 MUTANTS = [
+    Mutant('inliner-grows-the-free-variable-set-it-was-given', 'fpy2/transform/func_inline.py', "        self.free_vars = set(func.free_vars)", "        self.free_vars = func.free_vars", 'C18.E4',
+           'seeded change C18e: after inlining, the original function lists its callee\'s captured names and raises KeyError'),
+    Mutant('inliner-merges-into-the-environment-it-was-given', 'fpy2/transform/func_inline.py', "        self.env = func.env.copy()", "        self.env = func.env", 'C18.E4',
+           'rebinding `self.env = self.env.merge(..)` builds a new environment: nothing of the given one is written', expect='silent'),
     Mutant('rename-with-nothing-to-rename-returns-its-input', 'fpy2/transform/rename_target.py', "        ast = _RenameTargetInstance(func, rename).apply()\n        if not isinstance(ast, FuncDef):",
            "        if not rename:\n            return func\n        ast = _RenameTargetInstance(func, rename).apply()\n        if not isinstance(ast, FuncDef):", 'C18.E4',
            'seeded change C18d: inlining a callee with no locals rewrites the callee\'s own `return`'),
